@@ -10,7 +10,22 @@ UNIT_PROPS = {
     "worker_auth": ["C12"],
     "pktline": ["C13"],
     "storage_clean": ["C28"],
+    "ssh": ["C27"],
+    "session": ["C16", "C13"],
+    "service_fetch": ["C16", "C13"],
+    "service_gossip": ["C10", "C11", "C13"],
 }
+
+CRYPTO_GROUP = ["signature_roundtrip", "public_key_roundtrip"]
+
+
+def _cr(h, **kw):
+    d = {"harness": h, "package": "radicle-crypto", "features": "ssh", "group": [h], "timeout": 1500,
+         "functions": ["radicle-crypto::ssh::<impl Encodable for PublicKey/Signature>::{read,write}", "radicle-ssh::encoding::{Cursor::read_string, Cursor::read_u32, Encoding for Vec<u8>::extend_ssh_string}"],
+         "trusted": ["kani/CBMC; ec25519 from_slice (real crate compiled)"], "assumptions": []}
+    d.update(kw)
+    return d
+
 
 LIMITER_GROUP = ["new_establishes_invariant", "refill_contract", "refill_amount_bounded", "take_contract"]
 
@@ -70,5 +85,40 @@ PROPS = {
         "technique": "Verus sink preconditions on the extracted Repository::clean / Storage::clean: Reference::delete requires a non-protected namespace, Repository::remove requires that the local node has no signed refs; loop invariants over the remote and reference loops",
         "explanation": "Repository::clean (both loops, with `continue`) is verified: every reference deleted lies in a namespace that is neither the local key nor a delegate key, and every id reported deleted is unprotected. Storage::clean calls Repository::remove only when SignedRefsAt::load found no signed refs for the local key, and otherwise only Repository::clean.",
         "not_decided": "Assumed: references_glob(refs/namespaces/<id>/*) yields only refs of namespace <id>; find_reference returns the named ref; the map/collect chain building the delegate key set yields exactly the delegates; derive(Ord/PartialEq) on the key type is lawful. libgit2 itself is not verified.",
+    },
+    "C10": {
+        "vx": ["service_gossip"],
+        "kx": [],
+        "technique": "Verus gate idiom on the extracted Service::handle_announcement: sink gossip::Store::announced requires acceptable(announcement, clock); Announcement::verify proved to be the ed25519 check over the serialized message",
+        "explanation": "Service::handle_announcement reaches the gossip store only with an announcement whose signature verifies for the announcing node over its wire encoding, whose timestamp is at most one hour ahead of the clock and not zero, whose announcer is known for inventory/refs announcements and is not the local node; a result of Some(id) implies those facts.",
+        "not_decided": "Strictly-newer-than-stored is SQL (WHERE timestamp < ?) inside the store; the relayer/announcer exclusion in Service::relay is three .filter closures (outside Verus); the per-type processing after the store is an opaque stand-in (arbitrary effect, result Ok(relay)|Ok(None) assumed). serialize() and ed25519 are uninterpreted.",
+    },
+    "C11": {
+        "vx": ["service_gossip", "identity"],
+        "kx": [],
+        "technique": "Verus sink precondition on Outbox::write in the extracted Service::handle_message (Subscribe replay loop, with loop invariant): a refs announcement is written only if the repository is visible to the peer; Doc::is_visible_to proved against its definition",
+        "explanation": "In Service::handle_message every Outbox::write of a stored announcement is proved to satisfy: refs announcement of rid => visible(rid, peer). Doc::is_visible_to == public or allow-listed or delegate (unit identity).",
+        "not_decided": "Service::relay, Service::announce_refs (visibility tests inside .filter closures) and Service::initialize (inventory built through iterator adapters) are outside Verus's subset and are NOT decided here; storage.get is assumed to return the repository's current document.",
+    },
+    "C13": {
+        "vx": ["wire_frame", "pktline", "session", "service_fetch", "service_gossip"],
+        "kx": [],
+        "technique": "Verus panic-freedom obligations (index/slice bounds, overflow, unreachable!, assert!/debug_assert! as preconditions of stand-ins) on extracted decoders, pkt-line reader, session bookkeeping and message handlers; store assertions as sink preconditions",
+        "explanation": "For the extracted functions every slice/index access, arithmetic operation, unreachable!/assert!/debug_assert!/panic! is proved unreachable or true for all inputs: VarInt/Frame/Control/payload decoding and Deserializer; read_pktline/read_request_pktline; Session::{queue_fetch,fetching,to_attempted,to_initial} assertions at their call sites in the extracted callers; gossip store assertions (timestamp != 0, since <= until) as preconditions established by handle_announcement/handle_message; allocation sizes bounded by bytes received.",
+        "not_decided": "Only the listed functions: Message::decode and the other message decoders, GitRequest::parse (str code), Service handlers other than handle_message/handle_announcement gate/fetched/queue_fetch, netservices/cyphernet transport are not covered. Stand-ins with arbitrary results are assumed not to panic.",
+    },
+    "C16": {
+        "vx": ["session", "service_fetch"],
+        "kx": [],
+        "technique": "Verus data-structure invariant on the extracted impl Session (fetch set within the concurrency limit, queue within capacity, assertions as preconditions) + failure frame on Service::fetched",
+        "explanation": "Session::{is_at_capacity,is_fetching,queue_fetch,dequeue_fetch,fetching,fetched,to_connected,to_disconnected} are verified against the abstract fetch set/queue: fetching(rid) requires connected, not already fetching and below the limit and yields exactly set.insert(rid) within the limit; queue never exceeds 128. Service::fetched: a result from a peer other than the one the ongoing fetch of that repository belongs to leaves the fetch table unchanged (and never trips the debug assertion).",
+        "not_decided": "Service::try_fetch (HashMap entry API returning &mut into the map) and Service::disconnected (retain closure) cannot be ingested; 'at most one fetch per repository' rests on the fetch table being a map keyed by repository; interleavings are covered only in the sense that each verified handler preserves the invariants for any prior state.",
+    },
+    "C27": {
+        "vx": ["ssh"],
+        "kx": [_cr("public_key_roundtrip"), _cr("signature_roundtrip")],
+        "technique": "Verus panic-freedom on extracted encoding::Cursor and AgentClient::{request_identities,sign,read_signature} for an arbitrary agent reply; Kani full-domain round-trip harnesses for PublicKey/Signature SSH encoding",
+        "explanation": "For any reply bytes (ClientStream::request result arbitrary) request_identities, sign and read_signature index and slice within bounds and copy_from_slice only with equal lengths; Cursor::{read_u32,read_string,read_byte,read_mpint} never read out of bounds and advance exactly. Kani: for all 2^256 keys and 2^512 signatures, write then read yields the same value and consumes the whole encoding.",
+        "not_decided": "mpint_len/extend_ssh_mpint (local encoding side) not covered; Zeroizing<Vec<u8>> assumed transparent; 64-bit usize assumed.",
     },
 }
